@@ -152,6 +152,7 @@ type Cell struct {
 }
 
 type HandlerTable struct {
+	reach  map[*ssa.Function]map[*ssa.Function]bool
 	Cells  []Cell
 	States map[string]bool
 	Types  map[string]bool
@@ -304,10 +305,21 @@ func (e *Engine) CellsReaching(t *HandlerTable, target *ssa.Function) []Cell {
 	disp := e.Func("(*internal/raft.raft).Handle")
 	var out []Cell
 	memo := map[*ssa.Function]bool{}
+	if t.reach == nil {
+		t.reach = map[*ssa.Function]map[*ssa.Function]bool{}
+	}
+	reachOf := func(f *ssa.Function) map[*ssa.Function]bool {
+		if s, ok := t.reach[f]; ok {
+			return s
+		}
+		s := e.Reach([]*ssa.Function{f}, func(g *ssa.Function) bool { return g == disp })
+		t.reach[f] = s
+		return s
+	}
 	for _, c := range t.Cells {
 		reach, ok := memo[c.Fn]
 		if !ok {
-			set := e.Reach([]*ssa.Function{c.Fn}, func(f *ssa.Function) bool { return f == disp })
+			set := reachOf(c.Fn)
 			reach = set[target]
 			if !reach && set[disp] {
 				// re-dispatch: find constant message types passed to Handle
@@ -319,8 +331,7 @@ func (e *Engine) CellsReaching(t *HandlerTable, target *ssa.Function) []Cell {
 						for _, ty := range constMsgTypes(e, s) {
 							for _, c2 := range t.Cells {
 								if c2.Type == ty && c2.Fn != c.Fn {
-									s2 := e.Reach([]*ssa.Function{c2.Fn}, func(f *ssa.Function) bool { return f == disp })
-									if s2[target] {
+									if reachOf(c2.Fn)[target] {
 										reach = true
 									}
 								}
@@ -509,6 +520,9 @@ func (e *Engine) CallersClosure(fn *ssa.Function, stop func(*ssa.Function) bool)
 			continue
 		}
 		for _, ed := range n.In {
+			if isGoSite(ed.Site) {
+				continue
+			}
 			g := ed.Caller.Func
 			if !seen[g] {
 				seen[g] = true
